@@ -218,7 +218,8 @@ Fixpoint comp_all (fuel : nat) (remaining : list nat) (seen : list nat) (fl : li
       let '(conn, seen') := comp_grow (S (length (g_meshes g))) [se] 0 (se :: seen) in
       let rest := filter (fun m => negb (memn m conn)) remaining in
       let tail := comp_all f rest seen' fl in
-      if Nat.ltb 1 (length conn) && negb (f_iso (nth se fl flags0)) then conn :: tail else tail
+      (* conn.size()>=1 (repaired: a component bounded by a single mesh is a part too) && !conn.front()->isolated() *)
+      if Nat.leb 1 (length conn) && negb (f_iso (nth se fl flags0)) then conn :: tail else tail
     end
   end.
 
